@@ -45,6 +45,8 @@ REQUIRED_THEOREMS = [
     # round 7: geogram import_attribute read from the source (the default-value test of blind C04-g / C04-i)
     "import_attribute_bridge", "import_attribute_dense_source", "import_attribute_nothing_else_source", "import_attribute_values_source",
     "import_wrappers_source", "export_stl_wrapper_source", "import_stl_wrapper_source",
+    # round 8: geogram export_attribute and the chunk markers of is_chunk_header read from the source
+    "export_attribute_bridge", "chunk_markers_bridge",
 ]
 TRUSTED = [
     "Lean 4.33.0 kernel; axioms ⊆ {propext, Classical.choice, Quot.sound}",
@@ -91,10 +93,10 @@ SOURCE_MAP = {
     _IO + "geogram_ascii.py::Chunk.Container.from_string": "modelled: Model/IOGeogram.lean (container names)",
     _IO + "geogram_ascii.py::Chunk.Container.to_string": "modelled: Model/IOGeogram.lean (container names)",
     _IO + "geogram_ascii.py::Chunk.__init__": "modelled: Geo.parseFile (file -> chunk list)",
-    _IO + "geogram_ascii.py::is_chunk_header": "modelled: Geo.parseFile",
+    _IO + "geogram_ascii.py::is_chunk_header": "translated: the three markers (Generated.C04GW.chunkMarkers, chunk_markers_bridge); the substring test is modelled as equality of the one-token line",
     _IO + "geogram_ascii.py::import_attribute": "translated: whole body over a sparse-attribute model (Generated.C04A.importAttribute, import_attribute_bridge, import_attribute_dense_source: any default value, every value comes back); the chunk model keeps the dense values",
     _IO + "geogram_ascii.py::import_geogram_ascii": "modelled: Geo.importGeo / importChunks",
-    _IO + "geogram_ascii.py::export_attribute": "modelled: Geo.exportChunks (attribute chunks)",
+    _IO + "geogram_ascii.py::export_attribute": "translated: whole body over the attribute view AView (Generated.C04GW.exportAttribute, export_attribute_bridge: = chunkLines (attrChunk g) of the chunk model)",
     _IO + "geogram_ascii.py::export_geogram_ascii": "modelled: Geo.exportGeo / exportChunks",
     _IO + "off.py::import_off": "translated: whole body (Generated.C04Wrap.importOff, import_wrappers_source)",
     _IO + "off.py::parse_off_data": "translated: whole body (Generated.C04R.offRecord / parseOff, parse_off_bridge); *_corners bookkeeping outside the token-level mesh, arity-2 branch outside the domain",
@@ -1378,6 +1380,11 @@ def translate():
         T.write_generated("C04Wrap", txt)
         return detail
 
+    def site_geow():
+        txt, detail = CT.geo_writer()
+        T.write_generated("C04GeoW", txt)
+        return detail
+
     def site_glue():
         txt, detail = CT.glue()
         T.write_generated("C04Glue", txt)
@@ -1397,6 +1404,7 @@ def translate():
             T.site("mouette/mesh/io/io.py: read_by_extension / write_by_extension tables; mesh.py: load, _instanciate_raw_mesh_data", _with_stub("C04Dispatch", site_dispatch)),
             T.site("mouette/mesh/io/geogram_ascii.py: import_attribute (row of element i, exact comparison with the default value, scalar / vector store)", _with_stub("C04Attr", site_attr)),
             T.site("mouette/mesh/io/{obj,off,tet,stl}.py: wrappers import_obj, import_off, import_tet, export_stl, import_stl", _with_stub("C04Wrap", site_wrap)),
+            T.site("mouette/mesh/io/geogram_ascii.py: export_attribute (header lines, element / component loops, bool through int()), is_chunk_header markers", _with_stub("C04GeoW", site_geow)),
             T.site("mouette/mesh/mesh.py: load and save statement by statement (raw switch, read -> instantiate; adjacency, re-wrap, ignore block, write)", _with_stub("C04Glue", site_glue)),
             T.site("mouette/mesh/io/medit.py: import_medit dispatch (keyword, container, arity)", _with_stub("C04Medit", site)),
             T.site("mesh_attributes.py: Attribute.Type.from_string/to_string/byte_size; obj.py: parse_obj_data line-prefix dispatch", _with_stub("C04Tables", site2)),
